@@ -95,7 +95,8 @@ func init() {
 		nconn, nmsg := atoi(a[0]), atoi(a[1])
 		wrap := len(a) > 3 && a[3] == "wrap"
 		burstMode = len(a) > 3 && a[3] == "burst"
-		l := startLive(liveOpts{traceTo: a[2]})
+		noFilter := len(a) > 3 && a[3] == "nofilter" // WithHasSubcontract(false): every part is a message of its own
+		l := startLive(liveOpts{traceTo: a[2], noFilter: noFilter})
 		r := newRand(606)
 		var wg sync.WaitGroup
 		for c := 0; c < nconn; c++ {
@@ -131,12 +132,15 @@ func init() {
 						}
 						continue
 					}
-					if !burstMode && rr.Intn(10) == 0 { // a sub-packaged message: counts once, when complete
+					if !burstMode && rr.Intn(map[bool]int{true: 3, false: 10}[noFilter]) == 0 { // a sub-packaged message: counts once, when complete
 						total := 2 + rr.Intn(3)
 						id := []int{0x0801, 0x0200, 0x0704}[rr.Intn(3)]
 						order := rr.Perm(total - 1)
 						send := func(no int) {
 							body := randBytes(rr, 20+rr.Intn(30)) // two parts always hold the 36-byte fixed part of 0x0801
+							if noFilter {
+								body = randBytes(rr, 36+rr.Intn(30)) // each part is answered from its own bytes
+							}
 							t.send(buildFrame(hdrSpec{id: id, serial: t.nextSerial(), ver: t.ver, verbyte: 1, frag: 1, total: total, no: no, phone: t.phone, body: body}))
 						}
 						send(1)
